@@ -162,3 +162,57 @@ func init() {
 		RequiredCovers: []string{"matched via hostname", "host ignored (no hostname routes)", "fallback to path-only", "host with port matched", "host with trailing dot matched"},
 	}
 }
+
+func c02Jobs(tier string) []*Job {
+	var js []*Job
+	add := func(set, k, methods, symlen, pool int) {
+		js = append(js, &Job{Harness: "C02History", Params: map[string]int{"set": set, "k": k, "methods": methods, "symlen": symlen, "pool": pool}})
+	}
+	starts := []int{-1, 0, 6, 11, 16}
+	if tier == "thorough" {
+		starts = []int{-1, 0, 1, 2, 4, 6, 9, 10, 11, 12, 14, 16, 17, 18, 19, 20}
+	}
+	for _, s := range starts {
+		if tier == "thorough" && s == 16 {
+			add(s, 1, 4, 0, 18)
+			add(s, 2, 2, 0, 4)
+			add(s, 1, 2, 3, 18)
+		} else if tier == "thorough" {
+			add(s, 2, 4, 0, 18)
+			add(s, 3, 2, 0, 6)
+			for n := 1; n <= 5; n++ {
+				add(s, 1, 2, n, 18)
+			}
+			add(s, 2, 2, 3, 8)
+		} else if s == 16 {
+			// 60-sibling fan-out: one write only (observations are quadratic in the number of routes)
+			add(s, 1, 2, 0, 12)
+			add(s, 1, 2, 2, 12)
+		} else {
+			add(s, 2, 2, 0, 8)
+			for n := 1; n <= 4; n++ {
+				add(s, 1, 2, n, 12)
+			}
+		}
+	}
+	if tier != "thorough" {
+		add(-1, 2, 2, 2, 8)
+		add(0, 2, 2, 2, 6)
+	}
+	return js
+}
+
+func init() {
+	props["C02"] = &PropSpec{
+		ID:   "C02",
+		Jobs: c02Jobs,
+		Bounds: func(tier string) string {
+			if tier == "thorough" {
+				return "16 start sets (empty, hand and generated corpus sets incl. hostnames and the 60-sibling fan-out) x histories of k<=3 writes (Handle, HandleRoute, Update, UpdateRoute, Delete, Truncate(all), Truncate(method)) issued directly or in a committed/aborted transaction, methods {GET,FOO,POST,\"\"}, patterns from an 18-entry pool; plus a first write with a symbolic pattern of 1..5 arbitrary bytes; every reader checked after every step"
+			}
+			return "5 start sets x histories of k<=2 writes (7 kinds) direct / committed txn / aborted txn, methods {GET,FOO}, 8-entry pattern pool (12 for k=1); plus a first write with a symbolic pattern of 1..4 arbitrary bytes (k=1) and 2 bytes (k=2); every reader (Has, Route, Len, Iter.All/Methods/Prefix/Routes) checked after every step"
+		},
+		RequiredCovers: []string{"handle ok", "handle: ErrRouteExist", "handle: ErrRouteConflict", "handle: ErrInvalidRoute", "update ok", "update: ErrRouteNotFound", "delete ok", "delete: ErrRouteNotFound", "truncate all", "truncate method"},
+		Assumptions:    []string{"grammar don't-care regions are skipped (see C10)", "regexp.MatchString on the (concrete) method is executed natively"},
+	}
+}
